@@ -263,6 +263,21 @@ Qed.
 Lemma after_fault_pre_keep f tmp o : after_fault_b f o = true -> pre_keep_b f tmp o = true.
 Proof. destruct o; cbn; intros H; try discriminate; auto. Qed.
 
+Lemma aftermath_pre s0 f tmp aftermath : forall s1,
+  forallb (after_fault_b f) aftermath = true ->
+  pre s0 f tmp s1 -> names s1 tmp = None ->
+  pre s0 f tmp (run aftermath s1) /\ names (run aftermath s1) tmp = None.
+Proof.
+  induction aftermath as [|o t IH]; intros s1 Haft P' T; [split; assumption|].
+  cbn in Haft. apply andb_true_iff in Haft. destruct Haft as [Ho Ht].
+  rewrite run_cons. apply IH; [exact Ht| |].
+  - apply pre_step; [apply after_fault_pre_keep, Ho|exact P'].
+  - destruct o; cbn in Ho; try discriminate; cbn [kstep].
+    + destruct (fds s1 f0) as [[i off]|]; cbn; exact T.
+    + exact T.
+    + cbn. exact T.
+Qed.
+
 (* ---------------------------------------------------------------- the protocol *)
 
 Section Protocol.
@@ -335,8 +350,12 @@ Section Protocol.
 
   Lemma post_rename : post (kstep sA (KRename tmp target)).
   Proof.
-    cbn [kstep]. rewrite sA_names, path_eqb_refl. split; cbn.
-    - unfold read; cbn. unfold upd_name. rewrite path_eqb_refl. rewrite sA_data_new. reflexivity.
+    assert (E : kstep sA (KRename tmp target) =
+                mkK (upd_name (upd_name (names sA) tmp None) target (Some (next s0)))
+                    (data sA) (next sA) (fds sA)).
+    { cbn [kstep]. rewrite sA_names, path_eqb_refl. reflexivity. }
+    rewrite E. split; unfold read; cbn [names data].
+    - unfold upd_name. rewrite path_eqb_refl. rewrite sA_data_new. reflexivity.
     - unfold upd_name. rewrite (path_eqb_neq tmp target Hne), path_eqb_refl. reflexivity.
     - intros p H1 H2. unfold upd_name. rewrite (path_eqb_neq p target H1), (path_eqb_neq p tmp H2).
       rewrite sA_names, (path_eqb_neq p tmp H2). reflexivity.
@@ -396,17 +415,8 @@ Section Protocol.
     { apply pre_step; [cbn; apply path_eqb_refl|exact P]. }
     assert (T : names (kstep (run (firstn j partA) s0) (KUnlink tmp)) tmp = None).
     { cbn. unfold upd_name. rewrite path_eqb_refl. reflexivity. }
-    set (s1 := kstep (run (firstn j partA) s0) (KUnlink tmp)) in *.
-    assert (Q : pre s0 f tmp (run aftermath s1) /\ names (run aftermath s1) tmp = None).
-    { clear E P. revert s1 P' T. induction aftermath as [|o t IH]; intros s1 P' T; [split; assumption|].
-      cbn in Haft. apply andb_true_iff in Haft. destruct Haft as [Ho Ht].
-      rewrite run_cons. apply IH; [exact Ht| |].
-      - apply pre_step; [apply after_fault_pre_keep, Ho|exact P'].
-      - destruct o; cbn in Ho; try discriminate; cbn [kstep].
-        + destruct (fds s1 f0) as [[i off]|]; cbn; exact T.
-        + exact T.
-        + cbn. exact T. }
-    destruct Q as [Q1 Q2]. split; [|split; [|split]].
+    destruct (aftermath_pre s0 f tmp aftermath _ Haft P' T) as [Q1 Q2].
+    split; [|split; [|split]].
     - eapply pre_read; eassumption.
     - exact Q2.
     - intros p Hp. apply (pre_names _ _ _ _ Q1 p Hp).
@@ -474,14 +484,17 @@ Lemma shape_mid_split tmp target ops :
                    forallb quiet_b mid = true /\ forallb quiet_b tail = true.
 Proof.
   induction ops as [|o t IH]; [discriminate|].
-  intros H. destruct o; cbn [shape_mid] in H;
-    try (apply andb_true_iff in H; destruct H as [Q H]; cbn in Q; try discriminate;
-         destruct (IH H) as (mid & tail & E & M & T);
-         eexists (_ :: mid), tail; split; [rewrite E; reflexivity|]; split; [cbn; exact M|exact T]).
-  (* KRename *)
-  apply andb_true_iff in H. destruct H as [H T]. apply andb_true_iff in H. destruct H as [A B].
-  apply path_eqb_eq in A, B. subst. exists [], t. split; [reflexivity|].
-  split; [reflexivity|apply shape_tail_quiet, T].
+  intros H.
+  assert (Q : (exists a b, o = KRename a b) \/ (quiet_b o = true /\ shape_mid tmp target t = true)).
+  { destruct o; cbn [shape_mid] in H; try (right; apply andb_true_iff in H; exact H).
+    left. eauto. }
+  destruct Q as [(a & b & ->)|[Q H']].
+  - cbn [shape_mid] in H.
+    apply andb_true_iff in H. destruct H as [H T]. apply andb_true_iff in H. destruct H as [A B].
+    apply path_eqb_eq in A, B. subst. exists [], t. split; [reflexivity|].
+    split; [reflexivity|apply shape_tail_quiet, T].
+  - destruct (IH H') as (mid & tail & E & M & T).
+    exists (o :: mid), tail. split; [rewrite E; reflexivity|]. split; [cbn; rewrite Q; exact M|exact T].
 Qed.
 
 Lemma shape_writes_split f tmp target ops :
@@ -537,8 +550,8 @@ Proof.
               (wf_init _ _) Tn Fd N M T) as (A & B & C & D & _).
   rewrite <- E in *. rewrite W. rewrite read_init in A. split; [exact A|]. split; [exact B|].
   intros p Hp. destruct (path_eqb p tmp) eqn:Q.
-  - apply path_eqb_eq in Q. subst p. exact C.
-  - rewrite D; [|exact Hp|intros X; subst; rewrite path_eqb_refl in Q; discriminate].
+  - apply path_eqb_eq in Q. rewrite Q. exact C.
+  - rewrite D; [|exact Hp|intros X; rewrite X, path_eqb_refl in Q; discriminate].
     destruct old; cbn; [|reflexivity]. unfold upd_name. rewrite (path_eqb_neq p target Hp). reflexivity.
 Qed.
 
@@ -749,12 +762,14 @@ Example protocol_nonvacuous :
   let s0 := init w_target (Some [1; 2; 3]) in
   let ops := compile no_bufs (dump_uops 3 w_tmp w_target [([4; 5], None); ([6; 7; 8], Some [0%nat]); ([9], None)] [1%nat]) in
   wf s0 /\ names s0 w_tmp = None /\ fds s0 3 = None /\ w_tmp <> w_target /\
-  length ops = 9%nat /\ protocol_shape_b ops w_target = true /\
+  length ops = 7%nat /\ protocol_shape_b ops w_target = true /\
   crash_atomic_b ops w_target (Some [1; 2; 3]) [4; 5; 6; 7; 8; 9] = true /\
   read (run ops s0) w_target = Some [4; 5; 6; 7; 8; 9].
 Proof.
-  cbv zeta. split; [apply wf_init|]. vm_compute.
-  repeat split; try reflexivity. discriminate.
+  cbv zeta. split; [apply wf_init|].
+  split; [reflexivity|]. split; [reflexivity|]. split; [discriminate|].
+  split; [reflexivity|]. split; [vm_compute; reflexivity|].
+  split; vm_compute; reflexivity.
 Qed.
 
 (* ---------------------------------------------------------------- load *)
@@ -775,7 +790,7 @@ Proof.
   unfold core_load, core_load_with.
   destruct o; cbn; eexists; eexists; (split; [reflexivity|]);
     (split; [intros -> ->; reflexivity|]); (split; [intros ->; reflexivity|]);
-    intros a H; congruence.
+    intros x H; congruence.
 Qed.
 
 Lemma load_old_refuted_lemma :
